@@ -131,6 +131,22 @@ impl s2n_quic::provider::random::Generator for Random {
     }
 }
 
+/// endpoint limiter: optionally demands address validation (Retry) for every token-less Initial
+pub struct RetryLimiter(pub bool);
+
+impl s2n_quic::provider::endpoint_limits::Limiter for RetryLimiter {
+    fn on_connection_attempt(
+        &mut self,
+        _info: &s2n_quic::provider::endpoint_limits::ConnectionAttempt,
+    ) -> s2n_quic::provider::endpoint_limits::Outcome {
+        if self.0 {
+            s2n_quic::provider::endpoint_limits::Outcome::retry()
+        } else {
+            s2n_quic::provider::endpoint_limits::Outcome::allow()
+        }
+    }
+}
+
 macro_rules! finish {
     ($b:expr, $cfg:expr) => {{
         let b = $b;
@@ -229,7 +245,7 @@ fn rebinder(cfg: &Cfg) -> impl FnOnce(io::Socket) + 'static {
 
 pub fn setup(handle: &Handle, cfg: &Cfg) -> Result<()> {
     let server: Server = build!(
-        Server::builder(),
+        Server::builder().with_endpoint_limits(RetryLimiter(cfg.retry))?,
         handle.builder(),
         cfg,
         "s",
